@@ -462,11 +462,17 @@ def w_constructible(cfg, tier):
     for dname, dcls in DECODERS.items():
         names = dcls.allowed_codes if dcls.allowed_codes is not None else list(common.CLASSES)
         for cname in names:
-            for tag, direction, rate in settings:
-                oid = f'C05/constructible/{dname}/{cname}' + ('' if tag == 'generic' else f'/{tag}')
+            # the generic setting on EVERY size of the quick table (n <= 100), the boundary settings on the first
+            todo = [(settings[0], sz) for sz in common.sizes(cname, 'quick')] + \
+                [(st, common.sizes(cname, 'quick')[0]) for st in settings[1:]]
+            for (tag, direction, rate), size in todo:
+                first = size == common.sizes(cname, 'quick')[0]
+                oid = f'C05/constructible/{dname}/{cname}' + ('' if tag == 'generic' else f'/{tag}') + \
+                    ('' if first else '/' + 'x'.join(map(str, size)))
                 try:
-                    size = common.sizes(cname, 'quick')[0]
                     code = CODES[cname](*size)
+                    if code.n > 100:
+                        continue
                     dec = dcls(code, PauliErrorModel(*direction), rate)
                     n = code.n
                     with np.errstate(all='ignore'):
@@ -479,7 +485,8 @@ def w_constructible(cfg, tier):
                 except Exception as ex:
                     ok, detail = False, f'{type(ex).__name__}: {ex}'
                 col.record(oid, 'unsat' if ok else 'sat', 0, False,
-                           dict(decoder=dname, code=cname, direction=list(direction), rate=rate) if not ok else None, detail)
+                           dict(decoder=dname, code=cname, direction=list(direction), rate=rate, size=list(size))
+                           if not ok else None, detail)
     col.record('C05/stubs-are-shape-faithful', 'unsat' if validate_stub_shapes() else 'sat', 0, False,
                dict(stub_shapes=True), 'one real call each: Matching.decode, BpOsdDecoder.decode/osdw_decoding, '
                'Generator.choice(size=1) / random()')
@@ -504,7 +511,7 @@ def replay(path):
             if w.get('stub_shapes'):
                 bad = not validate_stub_shapes()
             else:
-                code = CODES[w['code']](*common.sizes(w['code'], 'quick')[0])
+                code = CODES[w['code']](*(w.get('size') or common.sizes(w['code'], 'quick')[0]))
                 dec = DECODERS[w['decoder']](code, PauliErrorModel(*w.get('direction', (0.2, 0.3, 0.5))), w.get('rate', 0.1))
                 with np.errstate(all='ignore'):
                     c0 = np.asarray(dec.decode(np.zeros(code.n_stabilizers, dtype=np.uint8)))
